@@ -98,6 +98,39 @@ fn p_last_holder_drop_order() {
     kani::cover!(group, "group");
     kani::cover!(!group, "object");
 }
+macro_rules! last_holder_is_derived { ($ctx:expr, $id:expr) => { {
+    // the last holder is a DERIVED object that holds a CLONE of the context: an owned child / an
+    // owned group child / a clone of a group; the payload is released exactly then
+    let id = $id;
+    let which: u8 = kani::any();
+    kani::assume(which < 3);
+    match which {
+        0 => { let parent = trait_obj!($ctx as Parent); let c = parent.child(7); drop(parent); assert!(unsafe { CTX_DROPPED } == 0 && c.leaf() == 7, "C07 the child keeps the context alive"); drop(c); }
+        1 => { let parent = trait_obj!($ctx as Parent); let c = parent.child_group(7); drop(parent); assert!(unsafe { CTX_DROPPED } == 0 && c.leaf() == 7, "C07 the group child keeps the context alive"); drop(c); }
+        _ => { let g = group_obj!($ctx as LeafGroup); let c = cast!(g impl Clone).unwrap(); let c2 = c.clone(); drop(c); assert!(unsafe { CTX_DROPPED } == 0 && c2.leaf() == id, "C07 the clone keeps the context alive"); drop(c2); }
+    }
+    assert!(unsafe { CTX_DROPPED } == 1, "C07 the context is released exactly when the last derived object is gone (here: one holding a clone of the context)");
+    kani::cover!(which == 0, "owned child last");
+    kani::cover!(which == 2, "clone last");
+} } }
+#[kani::proof]
+#[kani::unwind(3)]
+fn p_last_holder_is_derived() {
+    let id: u32 = kani::any();
+    let (keep, imp, ctx) = setup(id);
+    drop(keep);
+    last_holder_is_derived!((imp, ctx), id);
+}
+#[kani::proof]
+#[kani::unwind(3)]
+fn p_last_holder_is_derived_erased_ctx() {
+    // the usual plugin set-up: the context handle was type-erased BEFORE the object was built
+    let id: u32 = kani::any();
+    let (keep, imp, ctx) = setup(id);
+    drop(keep);
+    let ctx: CArc<cglue::trait_group::c_void> = ctx.into_opaque();
+    last_holder_is_derived!((imp, ctx), id);
+}
 //@ prefix=p_clone kind=property clause=clone of an object with context +1, opaque conversion +0, drops -1 each
 #[kani::proof]
 #[kani::unwind(3)]
